@@ -42,6 +42,9 @@ type c19case struct {
 	// ViaGlobal installs the scripted reader as crypto/rand.Reader for the duration of the call and passes that very
 	// value as the rand argument (a library that recognises "the system generator" must still report its failures)
 	ViaGlobal bool
+	// Served wraps the scripted reader in a servedReader: every answer is produced by another goroutine while the
+	// caller's stack is moved; the call runs on a fresh goroutine
+	Served bool
 }
 
 type tempError struct{ timeout bool }
@@ -112,6 +115,7 @@ func (s *scriptedReader) Read(p []byte) (int, error) {
 	switch kind {
 	case "full":
 		if s.pos >= len(s.data) {
+			s.failed = true
 			return 0, io.EOF
 		}
 		return give(len(p)), nil
@@ -240,6 +244,10 @@ func c19eval(r *vx.R, c c19case) {
 			out, err = c19call(c.Fn, cryptorand.Reader, d, e, za, id, msg, px, py)
 			return
 		}
+		if c.Served {
+			out, err = c19call(c.Fn, &servedReader{inner: rd}, d, e, za, id, msg, px, py)
+			return
+		}
 		out, err = c19call(c.Fn, rd, d, e, za, id, msg, px, py)
 	}, 60*time.Second)
 	key := "rand:" + c.Fn
@@ -252,6 +260,11 @@ func c19eval(r *vx.R, c c19case) {
 	if kind != "" {
 		r.Violation(key+":panic", fmt.Sprintf("panicked under reader script %v: %s", c.Script, m), c)
 		return
+	}
+	if !wantErr && rd.failed && !sim.failed && err == nil {
+		// the reference read sequence ends with the accepted candidate; a call that went back to the source afterwards and
+		// was told about a failure (error or end of stream) while it was still generating must report it
+		r.Violation(key+":error-swallowed:after-accepted-candidate", fmt.Sprintf("the call consulted the source again after the first acceptable candidate, the source failed there (script %v, candidates %v, %d bytes handed out) and the call returned no error", c.Script, c.Cands, rd.pos), c)
 	}
 	if wantErr {
 		if err == nil {
@@ -337,6 +350,12 @@ func TestVX_C19(t *testing.T) {
 		g.ViaGlobal = true
 		g.Shape += ":via-crypto/rand.Reader"
 		c19eval(r, g)
+		if len(c.Script) <= 8 {
+			sv := c
+			sv.Served = true
+			sv.Shape += ":served"
+			c19eval(r, sv)
+		}
 		failing := false
 		for _, a := range c.Script {
 			failing = failing || strings.HasPrefix(a, "err:") || a == "fullerr"
@@ -390,6 +409,25 @@ func TestVX_C19(t *testing.T) {
 					run(c19case{Fn: fn, Cands: cands, Script: script, Shape: fmt.Sprintf("rej%v:%s:off%d", pre, f, off)})
 				}
 			}
+			// failures behind the accepted candidate (Read calls j+1, j+2 and j+3, byte offsets 0 and 16) and a stream that
+			// ends exactly with the accepted candidate: a correct call never gets there; one that consults the source
+			// again while it is still generating must not swallow what it is told
+			for _, f := range fails {
+				for late := 1; late <= 3; late++ {
+					for _, off := range []int{0, 16} {
+						script := make([]string, 0, j+late+2)
+						for i := 0; i < j+late; i++ {
+							script = append(script, "full")
+						}
+						if off > 0 {
+							script = append(script, fmt.Sprintf("short:%d", off))
+						}
+						script = append(script, f)
+						run(c19case{Fn: fn, Cands: cands, Script: script, Shape: fmt.Sprintf("rej%v:late%d:%s:off%d", pre, late, f, off)})
+					}
+				}
+			}
+			run(c19case{Fn: fn, Cands: append(append([]string{}, pre...), "ok1"), Shape: fmt.Sprintf("rej%v:stream-ends-with-accepted", pre)})
 			// failure in the middle of a rejected candidate's successor is covered above; failure *before* any draw is j=0
 		}
 		// non-failing deviations: <= 2 short/zero reads anywhere in the first 3 draws
